@@ -101,48 +101,64 @@ def check_deposit(out, label, expected_blocks: dict[int, np.ndarray], leaves: li
         g = after[li]
         return g is not None and g.shape == want.shape and bool(torch.equal(g, want))
 
-    # depth-first search for an ordering of the inputs under which every column block AND every slice matches
+    # depth-first search for an ordering of the inputs under which every column block AND every slice matches. The offset
+    # is a function of the set of inputs still to place, so a set that failed once fails always: memoising the failed sets
+    # makes the search complete in at most 2^n * n steps (many interchangeable all-zero blocks made the plain search
+    # exponential in n!; thorough seed 7 ran out of budget on a correct deposit). A budget hit is inconclusive, never a
+    # violation.
     worst_seen = [0.0]
-    budget = [20000]
+    budget = [2000000]
+    exhausted = [False]
 
-    def dfs(off, remaining):
+    def search(pred, off, remaining, dead):
         if not remaining:
             return []
+        key = frozenset(remaining)
+        if key in dead:
+            return None
         for li in remaining:
             budget[0] -= 1
             if budget[0] < 0:
+                exhausted[0] = True
                 return None
-            err = block_err(li, off)
-            if err <= tol and slice_ok(li, off):
-                rest = dfs(off + expected_blocks[li].shape[1], [x for x in remaining if x != li])
+            err = pred(li, off)
+            if err is not None:
+                rest = search(pred, off + expected_blocks[li].shape[1], [x for x in remaining if x != li], dead)
                 if rest is not None:
                     worst_seen[0] = max(worst_seen[0], err)
                     return [li] + rest
+                if exhausted[0]:
+                    return None
+        dead.add(key)
         return None
+
+    def both(li, off):
+        err = block_err(li, off)
+        return err if err <= tol and slice_ok(li, off) else None
+
+    def dfs(off, remaining):
+        return search(both, off, remaining, set())
 
     order = dfs(0, idxs)
     if order is not None:
         out.metric(f"ratio:{label}:jacobian-values", worst_seen[0] / tol)
         return True
 
-    # diagnosis: is there an ordering matching the matrix alone? the slices alone?
-    def dfs_only(pred, off, remaining):
-        if not remaining:
-            return []
-        for li in remaining:
-            budget[0] -= 1
-            if budget[0] < 0:
-                return None
-            if pred(li, off):
-                rest = dfs_only(pred, off + expected_blocks[li].shape[1], [x for x in remaining if x != li])
-                if rest is not None:
-                    return [li] + rest
-        return None
+    if exhausted[0]:
+        out.cls(f"{label}:ordering-search-inconclusive")
+        return True
 
-    budget[0] = 20000
-    order_m = dfs_only(lambda li, off: block_err(li, off) <= tol, 0, idxs)
-    budget[0] = 20000
-    order_s = dfs_only(slice_ok, 0, idxs)
+    # diagnosis: is there an ordering matching the matrix alone? the slices alone?
+    def only_m(li, off):
+        err = block_err(li, off)
+        return err if err <= tol else None
+
+    budget[0] = 2000000
+    order_m = search(only_m, 0, idxs, set())
+    budget[0] = 2000000
+    order_s = search(lambda li, off: 0.0 if slice_ok(li, off) else None, 0, idxs, set())
+    if exhausted[0]:
+        order_m = order_m if order_m is not None else "search inconclusive"
     if order_m is None:
         out.check(False, f"{label}:jacobian-matrix",
                   f"no ordering of the inputs {idxs} makes the matrix seen by the aggregator equal to the oracle Jacobian "
